@@ -443,7 +443,7 @@ Section ResFacts.
     - exists (map (fun r => (f r, g r)) inds). subst out. rewrite U. cbn [fst snd].
       rewrite !map_map. cbn [fst snd].
       repeat split; try reflexivity; try discriminate.
-      clear. induction inds; cbn; constructor; [apply (eqv_refl ltb H)|assumption].
+      clear - H. induction inds as [|a inds IH]; cbn [map]; [apply Forall2_nil|apply Forall2_cons; [apply (eqv_refl ltb H)|exact IH]].
   Qed.
 
   (* ---- find_optimum ---- *)
